@@ -8,7 +8,8 @@ shapes are reported as a *discard*:
                   is never read on any path (`let _ = f();`, `f();`, `let _ = f().await;`) - also when it
                   is first moved through plain `_x = move _y` copies;
   adaptor:<name>  the Result is fed to an adaptor that forgets the error or replaces the failure by a
-                  default (`ok`, `unwrap_or*`, `is_ok`, `is_err`, `map_or*`, `or`, `or_else`, `err`, `iter`).
+                  default (`ok`, `unwrap_or*`, `map_or*`, `or`, `or_else`, `err`, `iter`); `is_ok()` / `is_err()` count as looking at the value when their
+                  bool is used (a branch on it handles both outcomes) and as a discard when it is not.
 
 Every discard on today's tree is listed, with a reason, in tables/error_discards.json, keyed by
 (function group, shape, producer of the value) plus a count - never by line or local name.  A discard that
@@ -23,10 +24,13 @@ from .core import Prov, op_place, short, norm
 
 SWALLOW = {
     "Result::ok", "Result::err", "Result::unwrap_or", "Result::unwrap_or_default", "Result::unwrap_or_else",
-    "Result::is_ok", "Result::is_err", "Result::map_or", "Result::map_or_else", "Result::or", "Result::or_else",
-    "Result::iter", "Result::into_iter", "Result::is_ok_and", "Result::is_err_and", "Result::unwrap_or_unchecked",
+    "Result::map_or", "Result::map_or_else", "Result::or", "Result::or_else",
+    "Result::iter", "Result::into_iter", "Result::unwrap_or_unchecked",
     "mem::drop", "mem::forget",
 }
+# outcome tests: the Result is looked at iff the bool they return is used (a branch on `x.is_ok()` handles both
+# outcomes like a `match` does; `let _ = x.is_ok();` does not)
+TESTS = {"Result::is_ok", "Result::is_err", "Result::is_ok_and", "Result::is_err_and"}
 
 
 def _strip(ty):
@@ -179,6 +183,11 @@ def discards(prog, bodies):
                     for k2, b2, p2 in sub_us:
                         if k2 == "call" and p2[1] == 0 and p2[0].decl_s in SWALLOW:
                             found.append(("adaptor:" + p2[0].decl_s, p2[0].span))
+                        elif k2 == "call" and p2[1] == 0 and p2[0].decl_s in TESTS:
+                            if uses.get(p2[0].dest["l"]):
+                                only_sw = False
+                            else:
+                                found.append(("unused-test:" + p2[0].decl_s, p2[0].span))
                         else:
                             only_sw = False
                     if not only_sw:
@@ -187,13 +196,15 @@ def discards(prog, bodies):
                     c, i = pay
                     if i == 0 and c.decl_s in SWALLOW:
                         found.append(("adaptor:" + c.decl_s, c.span))
+                    elif i == 0 and c.decl_s in TESTS and not uses.get(c.dest["l"]):
+                        found.append(("unused-test:" + c.decl_s, c.span))
                     else:
                         looked = True
                 else:
                     looked = True
             if looked:
                 # adaptor uses are still reported (they are sites where a failure is forgotten on that path)
-                return [f for f in found if f[0].startswith("adaptor:")]
+                return [f for f in found if f[0].startswith("adaptor:") or f[0].startswith("unused-test:")]
             return found
 
         # only classify "source" locals: defined by a call or by an assignment that is not a plain move of another Result local
